@@ -193,6 +193,10 @@ def main():
     real_write = io_h.write
 
     def write(name, *args):
+        if name == "dumping_output_handler":
+            # the periodic no-op handler of the harness' configurations: recorded, the mediator is not pickled
+            log["writes"].append([name, digest(sh)])
+            return None
         if args and isinstance(args[0], (list, tuple)):
             log["writes"].append([name, digest(sh)])
         return real_write(name, *args)
